@@ -7,9 +7,11 @@ import (
 	"fmt"
 	"os"
 	"path/filepath"
+	"seata.apache.org/seata-go/pkg/protocol/message"
 	"strings"
 	"sync"
 	"sync/atomic"
+	"time"
 
 	"seata.apache.org/seata-go/pkg/client"
 	ssql "seata.apache.org/seata-go/pkg/datasource/sql"
@@ -179,6 +181,19 @@ func NewEnv(ddl []string, opt Options) (*Env, error) {
 	e.TC = faketc.New("192.168.0.1:8091")
 	e.TC.Wire = opt.Wire
 	e.Sess = e.TC.Open("192.168.0.1:8091")
+	// OnOpen announces the TM on its own goroutine; wait until that exchange is over so it cannot land in a later case
+	for i := 0; i < 2000; i++ {
+		done := false
+		for _, ev := range e.TC.Events() {
+			if _, ok := ev.Msg.Body.(message.RegisterTMResponse); ok && ev.Dir == "s2c" {
+				done = true
+			}
+		}
+		if done {
+			break
+		}
+		time.Sleep(time.Millisecond)
+	}
 	// sql.Open registers the resource with the coordinator (RegisterRMRequest) synchronously
 	if !opt.NoXA {
 		if e.XA, err = sql.Open(XADriver, e.DSN); err != nil {
